@@ -204,6 +204,8 @@ fn judge(sc: &Script, text_lines: &[String], stats: &mut Stats) -> Verdict {
     let per_go = Duration::from_secs(20);
     let n_go = slots.iter().filter(|x| **x == Slot::Go).count() as u32;
     let deadline = std::time::Instant::now() + Duration::from_secs(5) + per_go * n_go;
+    let mut last_ticks = p.cpu_ticks();
+    let mut idle_since = std::time::Instant::now();
     loop {
         match parse(&p.transcript, &slots) {
             Err(why) => {
@@ -218,8 +220,22 @@ fn judge(sc: &Script, text_lines: &[String], stats: &mut Stats) -> Verdict {
             return Err(Failure::new("harness-timeout-waiting-for-answers", json!({"case": desc, "stdout": p.transcript})));
         }
         match p.next_line(left.min(Duration::from_millis(500))) {
-            Wait::Line(_) => {}
-            Wait::Timeout => {}
+            Wait::Line(_) => {
+                idle_since = std::time::Instant::now();
+            }
+            Wait::Idle => {}
+            Wait::Timeout => {
+                // alive but idle (no output, CPU time not increasing) with answers missing: they
+                // will never come — no need to sit out the whole allowance
+                let t = p.cpu_ticks();
+                if t != last_ticks {
+                    last_ticks = t;
+                    idle_since = std::time::Instant::now();
+                } else if idle_since.elapsed() >= Duration::from_secs(4) {
+                    let filled = parse(&p.transcript, &slots).map(|x| x.0).unwrap_or(0);
+                    return Err(Failure::new("missing-output", json!({"case": desc, "slots_expected": slots.len(), "slots_filled": filled, "stdout": p.transcript, "engine": "alive and idle"})));
+                }
+            }
             Wait::Eof => {
                 // process closed stdout: whatever is missing is missing for good
                 match parse(&p.transcript, &slots) {
